@@ -32,6 +32,9 @@ func init() {
 
 	reg("refine/msgpack-value", ruleRefine, 20000, 40000, 4, facet.F[Input]{Gen: genRefine}, false)
 
+	reg("wrapper/json-value", ruleWrapper, 20000, 40000, 4, facet.F[Input]{Gen: genWrapper("json", DJSONValue)}, false)
+	reg("wrapper/msgpack-value", ruleWrapper, 20000, 40000, 4, facet.F[Input]{Gen: genWrapper("msgpack", DMsgpackValue)}, false)
+
 	reg("raw/json-value", ruleRaw, 10000, 30000, 2, facet.F[Input]{Gen: genRaw("json", []string{DJSONValue})}, false)
 	reg("raw/json-type", ruleRaw, 10000, 30000, 2, facet.F[Input]{Gen: genRaw("json", []string{DJSONType, DJSONTypeDirect})}, false)
 	reg("raw/json-implied", ruleRaw, 10000, 30000, 2, facet.F[Input]{Gen: genRaw("json", []string{DJSONImplied})}, false)
